@@ -275,6 +275,10 @@ func c14SliceZoo(w *mon.W, idx int) {
 	r := w.Rng
 	nw := r.Range(4, 40)
 	words := gen.ZooBitmap(r, nw)
+	if idx%10 == 7 {
+		words = gen.RunBitmap(r, 60+idx%200)
+		nw = len(words)
+	}
 	if idx%3 == 1 {
 		if v, rel, ok := roOneW(w, words); ok {
 			words = v
@@ -375,6 +379,11 @@ func c14JoinLong(w *mon.W, idx int) {
 	vals := make([]uint64, n)
 	for i := range vals {
 		vals[i] = r.Uint64()
+	}
+	if idx%2 == 1 {
+		vals = gen.RunValues(r, 70000) // runs of equal values with lengths on and next to powers of two up to 2^14
+		n = len(vals)
+		w.Bucket("join/run-structured-values")
 	}
 	w.Op, w.A, w.B = "Join(long)", int64(width), int64(n)
 	got := bitmap.Join(vals, width)
